@@ -63,6 +63,8 @@ type c09group struct {
 	unknownAt   ast.Node
 	unknownSt   *flow.State
 	fresh       int
+	clock       bool // the group stands for reads of the clock the state update is computed from
+	before      bool // the unheld access precedes the function's own Lock
 }
 
 // c09lockOp recognises X.lock.Lock() / X.Lock() (embedded mutex) on a limiter X.
@@ -189,9 +191,42 @@ func c09lockAnalyze(c *core.Ctx, lim *c09limiter, fn *c09fn) {
 	f := fn.f
 	writes := c09writeTargets(f.Body)
 	fn.groups = map[string]*c09group{}
+	clock, clockName := c09clockReads(f, lim, fn)
+	// does the function take the lock of its own receiver? then nobody else can hold it for the
+	// function, and anything touched before that Lock is touched without the lock
+	locksSelf := false
+	for _, call := range calls(f.Body, false) {
+		if base, op := c09lockOp(f, lim, call, f.Callee(call)); base != nil && (op == "Lock" || op == "RLock") {
+			if id, ok := ast.Unparen(base).(*ast.Ident); ok && fn.recv != nil && c09obj(f, id) == fn.recv {
+				locksSelf = true
+			}
+		}
+	}
 	fn.res = analyze(c, f, flow.Config{
 		NoHavoc: true,
 		OnCall: func(st *flow.State, call *ast.CallExpr, callee types.Object, deferred bool) {
+			if clock[call] && fn.recv != nil {
+				g := fn.groups[clockName]
+				if g == nil {
+					g = &c09group{clock: true}
+					fn.groups[clockName] = g
+				}
+				g.evals++
+				k := f.Render(c09recvIdent(f))
+				w, r := st.Get("ev:w:"+k), st.Get("ev:r:"+k)
+				switch {
+				case w == flow.True || r == flow.True:
+					g.held++
+				case w == flow.Unknown && r == flow.Unknown && !locksSelf:
+					g.unknownRecv = true
+					fn.needsEntry = true
+				default:
+					if g.unheld == nil {
+						g.unheld, g.unheldAt = st, call
+						g.before = w == flow.Unknown && r == flow.Unknown
+					}
+				}
+			}
 			base, op := c09lockOp(f, lim, call, callee)
 			if base == nil {
 				return
@@ -245,7 +280,11 @@ func c09lockAnalyze(c *core.Ctx, lim *c09limiter, fn *c09fn) {
 					g.held++
 				case w == flow.Unknown && r == flow.Unknown:
 					root, _ := ast.Unparen(sel.X).(*ast.Ident)
-					if root != nil && fn.recv != nil && c09obj(f, root) == fn.recv && fn.fd != nil {
+					if root != nil && fn.recv != nil && c09obj(f, root) == fn.recv && fn.fd != nil && locksSelf {
+						if g.unheld == nil {
+							g.unheld, g.unheldAt, g.before = st, sel, true
+						}
+					} else if root != nil && fn.recv != nil && c09obj(f, root) == fn.recv && fn.fd != nil {
 						g.unknownRecv = true
 						fn.needsEntry = true
 						fn.needsWrite = fn.needsWrite || write
@@ -441,7 +480,18 @@ func c09Locks(c *core.Ctx) (*c09limiter, []*c09fn) {
 			if g.write {
 				what = "read/written"
 			}
+			if g.clock {
+				cons = fn.name + "|clock read under the instance lock"
+			}
 			switch {
+			case g.unheld != nil && g.clock:
+				when := "after the instance lock was released"
+				if g.before {
+					when = "before the instance lock is taken"
+				}
+				c.Violate("R-C09-1", cons, pos(c, g.unheldAt), "the time the cycle / tokens update is computed from is read "+when+": two concurrent acquirers can take the lock in the opposite order of their time stamps — the later-stamped one rolls the cycle forward and clamps the unused permits, the earlier-stamped one then sees a negative cycle difference and is charged a full extra limitForPeriod (an arrival in a period with spare permits is rejected or made to wait)", witness(g.unheld)...)
+			case g.unheld != nil && g.before:
+				c.Violate("R-C09-1", cons, pos(c, g.unheldAt), gname+" is "+what+" before the function takes the instance lock: concurrent acquirers race on the token count", witness(g.unheld)...)
 			case g.unheld != nil:
 				c.Violate("R-C09-1", cons, pos(c, g.unheldAt), gname+" is "+what+" after the instance lock was released: a concurrent acquirer can interleave between the reject test and the reservation (two requests take the same permit)", witness(g.unheld)...)
 			case g.unknownAt != nil:
@@ -453,6 +503,8 @@ func c09Locks(c *core.Ctx) (*c09limiter, []*c09fn) {
 				case len(bad[h]) > 0:
 					b := bad[h][0]
 					c.Violate("R-C09-1", cons, pos(c, b.at), fn.name+" touches "+gname+" without locking and is "+b.why, witness(b.st)...)
+				case ast.IsExported(fn.fd.Name.Name) && g.clock:
+					c.Violate("R-C09-1", cons, pos(c, fn.fd), "exported method reads the time the cycle / tokens update is computed from without holding the instance lock (callers outside the package cannot hold it): concurrent acquirers can be serialised in the opposite order of their time stamps, and the earlier-stamped one is charged a full extra limitForPeriod")
 				case ast.IsExported(fn.fd.Name.Name):
 					c.Violate("R-C09-1", cons, pos(c, fn.fd), "exported method touches "+gname+" without taking the instance lock (callers outside the package cannot hold it)")
 				default:
@@ -1097,4 +1149,141 @@ func c09limiterFields(c *core.Ctx, pkg *packages.Package, n *types.Named) map[st
 		return nil
 	}
 	return roles
+}
+
+// c09recvIdent returns the receiver identifier of a method declaration (nil otherwise).
+func c09recvIdent(f *flow.Func) *ast.Ident {
+	fd, ok := f.Node.(*ast.FuncDecl)
+	if !ok || fd.Recv == nil || len(fd.Recv.List) != 1 || len(fd.Recv.List[0].Names) != 1 {
+		return nil
+	}
+	return fd.Recv.List[0].Names[0]
+}
+
+// c09clockReads returns the reads of the clock (time.Now or a package-level func() time.Time
+// variable such as nowFunc) in a method of a limiter type whose value flows into the limiter's
+// state: into a store to a guarded field, or into an argument of a method call on a limiter.
+// These reads belong to the read-modify-write: they must happen inside the critical section.
+func c09clockReads(f *flow.Func, lim *c09limiter, fn *c09fn) (map[*ast.CallExpr]bool, string) {
+	out := map[*ast.CallExpr]bool{}
+	if fn.fd == nil || fn.recv == nil || !lim.isLimiter(fn.recv.Type()) || c09recvIdent(f) == nil {
+		return out, ""
+	}
+	rt := fn.recv.Type()
+	if p, ok := rt.(*types.Pointer); ok {
+		rt = p.Elem()
+	}
+	name := rt.(*types.Named).Obj().Name() + " clock"
+	isClock := func(call *ast.CallExpr) bool {
+		if len(call.Args) != 0 {
+			return false
+		}
+		if tv, ok := f.Info.Types[call]; !ok || tv.Type == nil || tv.Type.String() != "time.Time" {
+			return false
+		}
+		var o types.Object
+		switch x := ast.Unparen(call.Fun).(type) {
+		case *ast.Ident:
+			o = c09obj(f, x)
+		case *ast.SelectorExpr:
+			o = f.Info.Uses[x.Sel]
+		}
+		switch t := o.(type) {
+		case *types.Func:
+			return t.Pkg() != nil && t.Pkg().Path() == "time" && t.Name() == "Now"
+		case *types.Var:
+			return t.Pkg() != nil && t.Parent() == t.Pkg().Scope()
+		}
+		return false
+	}
+	var clocks []*ast.CallExpr
+	for _, call := range calls(f.Body, false) {
+		if isClock(call) {
+			clocks = append(clocks, call)
+		}
+	}
+	if len(clocks) == 0 {
+		return out, name
+	}
+	hasClock := func(n ast.Node) bool {
+		for _, cl := range clocks {
+			if contains(n, cl) {
+				return true
+			}
+		}
+		return false
+	}
+	tainted := map[types.Object]bool{}
+	dirty := func(e ast.Node) bool { return e != nil && (hasClock(e) || c09mentions(f, e, tainted)) }
+	for changed := true; changed; {
+		changed = false
+		ast.Inspect(f.Body, func(n ast.Node) bool {
+			var lhs, rhs []ast.Expr
+			switch s := n.(type) {
+			case *ast.AssignStmt:
+				lhs, rhs = s.Lhs, s.Rhs
+			case *ast.ValueSpec:
+				for _, nm := range s.Names {
+					lhs = append(lhs, nm)
+				}
+				rhs = s.Values
+			default:
+				return true
+			}
+			any := false
+			for _, r := range rhs {
+				if dirty(r) {
+					any = true
+				}
+			}
+			if !any {
+				return true
+			}
+			for _, l := range lhs {
+				if id, ok := ast.Unparen(l).(*ast.Ident); ok {
+					if o := c09obj(f, id); o != nil && !tainted[o] {
+						tainted[o] = true
+						changed = true
+					}
+				}
+			}
+			return true
+		})
+	}
+	influences := false
+	ast.Inspect(f.Body, func(n ast.Node) bool {
+		switch s := n.(type) {
+		case *ast.FuncLit:
+			return false
+		case *ast.AssignStmt:
+			for _, l := range s.Lhs {
+				if sel := c09storeTarget(l); sel != nil {
+					if _, guarded := lim.guards[c09fieldOf(f, sel)]; guarded {
+						for _, r := range s.Rhs {
+							if dirty(r) {
+								influences = true
+							}
+						}
+					}
+				}
+			}
+		case *ast.CallExpr:
+			if fo, ok := f.Callee(s).(*types.Func); ok && fo.Pkg() == lim.pkg.Types {
+				if rv := fo.Type().(*types.Signature).Recv(); rv != nil && lim.isLimiter(rv.Type()) {
+					for _, a := range s.Args {
+						if dirty(a) {
+							influences = true
+						}
+					}
+				}
+			}
+		}
+		return true
+	})
+	if influences {
+		for _, cl := range clocks {
+			out[cl] = true
+		}
+	}
+	return out, name
 }
